@@ -184,7 +184,7 @@ def run_property(prop, tier="quick", replay=None, repo=None, quiet=False, facts=
             emit("  (suppressed while analysis is broken) %s:%s rule=%s instance=%s: %s" % (v.file, v.line, v.rule, v.key, v.why))
 
     # ---- evidence
-    if write_evidence and not replay:
+    if write_evidence and not replay and not os.environ.get("VERIF_SEEDRUN"):
         write_evidence_file(prop, meta, run, facts, tier, seed, wall, violations, known_hits, broken, extra)
     if rc == 0:
         emit("[%s] OK: %d obligations hold%s" % (prop, len([o for o in (run.obs if run else []) if o.status == "holds"]),
